@@ -43,10 +43,16 @@ def run_pair(pair, first, p1, p2, free=False, nthreads=2):
     errs, partial, foreign = [], [], []
     CONNECT_PAIRS = ("none|none", "conn|connother", "none|readinfo", "connlow|connup")
 
-    def open_session(name):
+    barrier = threading.Barrier(nthreads) if free else None
+
+    def open_session(name, who=0):
         if name == "nodbsel":
             return fs.connect()                 # no current database: every name is fully qualified
         if name in ("connlow", "connup"):
+            if free:
+                # one database and schema, spelt in four ways (they are one name: unquoted identifiers are case-insensitive)
+                f = (str.lower, str.upper, str.title, str.swapcase)[who % 4]
+                return fs.connect(f("Race9"), f("Land9"))
             return fs.connect("d9" if name == "connlow" else "D9", "s9" if name == "connlow" else "S9")
         if name in ("ctmeta", "readmeta"):
             return fs.connect("D0", "S0")       # metadata views read the side tables of the CURRENT database (see C09)
@@ -54,22 +60,31 @@ def run_pair(pair, first, p1, p2, free=False, nthreads=2):
 
     # pairs that are about the statements: the sessions exist before the schedule starts, so that its preemption points count the
     # engine calls of the statements (the connect bootstrap is scheduled in the pairs that are about connecting)
-    pre = {} if pair in CONNECT_PAIRS or free else {w: open_session(a if w % 2 == 1 else b) for w in range(1, nthreads + 1)}
+    pre = {} if pair in CONNECT_PAIRS or free else {w: open_session(a if w % 2 == 1 else b, w) for w in range(1, nthreads + 1)}
 
     def session(who):
         name = a if who % 2 == 1 else b
         if not free:
             sc.start(who)
         try:
-            conn = pre.get(who) or open_session(name)
+            if barrier is not None:
+                barrier.wait(30)                # free-running: all threads leave together
+            conn = pre.get(who) or open_session(name, who)
             cur = conn.cursor()
-            for sql in script(name, who):
+            stmts = script(name, who)
+            if free and name in ("connlow", "connup"):
+                # a statement that needs everything connect() sets up (the side tables of the database)
+                stmts = stmts + [f"create table tc{who} (id int, name varchar(10)) comment = 'by {who}'",
+                                 f"select character_maximum_length from information_schema.columns where table_name = 'TC{who}' and column_name = 'NAME'"]
+            for sql in stmts:
                 cur.execute(sql)
                 rows = cur.fetchall()
                 if name == "nodbsel" and sql.startswith("select"):
                     want = [(who * 1000 + (0 if "from" in sql else 1),)]
                     if [tuple(int(x) for x in r) for r in rows] != want:
                         foreign.append((who, rows))
+                if free and name in ("connlow", "connup") and sql.startswith("select character") and rows != [(10,)]:
+                    partial.append((sql[:20], rows))
                 if name == "readmeta" and rows:
                     # the table is visible: its comment (first read) and its VARCHAR length (second read) must be there too
                     if (sql == META1 and rows[0][0] != "c1") or (sql == META2 and rows[0][0] != 5):
@@ -196,11 +211,11 @@ class C19(Prop):
         bad = 0
         n = 0
         for rep in range(30 if tier == "thorough" else 4):
-            for pair in ("ins|ins", "none|none", "merge|merge", "connlow|connup"):
+            for pair in ("ins|ins", "none|none", "merge|merge", "connlow|connup", "connlow|connup", "connlow|connup"):
                 obs = isolated(pair, 1, 0, 0, limit=120, free=True, nthreads=16)
                 n += 1
                 want_rows = {"ins|ins": 16, "none|none": 0, "merge|merge": 16, "connlow|connup": 0}[pair]
-                if obs["errs"] or obs["hang"] or obs["rows"] != want_rows:
+                if obs["errs"] or obs["hang"] or obs["partial"] or obs["rows"] != want_rows:
                     bad += 1
                     run.notes.append(f"free-running {pair}: {obs}")
         run.extra_cov["free_running_16_thread_runs"] = n
